@@ -439,6 +439,21 @@ def run_upload(case, st):
         st.violation("C01:upload:can-format", case, "legal CAN frame", repr(bus.format_errors[0]))
     st.outcome("ul ok nseg>0" if nseg else "ul ok expedited")
     st.sample({"case": case}, cap=6)
+    if case["od"] in OD_WIDTHS and case["mode"] == "upload" and n >= 2:
+        # the application edits the dictionary entry (another fixed-size type) and uploads the same address again on the
+        # same client: the result follows the dictionary as it is NOW
+        from canopen.objectdictionary import datatypes as dt
+        new = "UNSIGNED8" if OD_WIDTHS[case["od"]] > 1 else "UNSIGNED16"
+        node.object_dictionary[idx].data_type = getattr(dt, new)
+        want2 = data[:1 if new == "UNSIGNED8" else 2]
+        st.evaluations += 1
+        try:
+            got2 = do_upload(node, case)
+        except Exception as e:  # noqa: BLE001
+            st.violation(f"C01:upload:raises:{type(e).__name__}:after-dictionary-edit", case, "returns the data", repr(e)[:200])
+            return
+        if got2 != want2:
+            st.violation(f"C01:upload:data:{key}:after-dictionary-edit", case, want2.hex(), bytes(got2).hex())
 
 
 def run_accessor(case, st):
